@@ -1,0 +1,31 @@
+//go:build verif
+
+// Contracts for package taskctl, checked by /verif/govc. Comments only.
+
+package taskctl
+
+//@ func NewScheduler
+//@   ensures [fresh] res != nil && fresh(res) && res.taskRunner == r
+//@   modifies nothing
+
+//@ func (*Scheduler).OnStageChange
+//@   requires [nonnil] s != nil
+//@   modifies Scheduler.onStageChange@[s]
+
+//@ func interface (github.com/Flowpack/prunner/taskctl.Runner).SetOnTaskChange
+//@   modifies nothing
+
+//@ func interface (github.com/taskctl/taskctl/pkg/runner.Runner).Finish
+//@   modifies nothing
+
+//@ func interface (github.com/taskctl/taskctl/pkg/runner.Runner).Cancel
+//@   modifies nothing
+
+//@ func (*Scheduler).Finish
+//@   requires [nonnil] s != nil
+//@   modifies nothing
+
+//@ func (*Scheduler).Canceled
+//@   requires [nonnil] s != nil
+//@   ensures [flag] res <==> s.cancelled == 1
+//@   modifies nothing
